@@ -10,7 +10,9 @@ Clauses
               poles are complex), unit gain at the resonant frequency, and no
               grid point above it
   comb        fb / tau / ff (all aliases): exact Q responses equal the stated
-              recursion; tau form uses alpha = e^{-delay/tau}
+              recursion; tau form uses alpha = e^{-delay/tau}; delays 1..12 and long
+              delay lines up to 130; the feedback forms also from a given initial
+              state (memory argument: y[-1] first), not only from rest
   gammatone   sampled (eta 1..4, phase), slaney, klapuri: CascadeFilter of stable
               second-order sections with unit gain at the centre frequency
   streams     Stream-valued parameters (lowpass/highpass x4, resonator x4, comb
@@ -31,14 +33,15 @@ from audiolazy import (lowpass, highpass, resonator, comb, gammatone, Stream,
 ID = "C13"
 RULE = ("cases = (design strategy chosen by name, parameters drawn from the "
         "documented ranges: cut-off / centre in [1e-3, pi-1e-3], bandwidth in "
-        "[1e-3, 1], delay 1..12, alpha / tau, exact-rational input signals) drawn "
+        "[1e-3, 1], delay 1..12 and long lines 13..130, alpha / tau, exact-rational input signals, "
+        "feedback combs from rest or from a given memory of at least delay values) drawn "
         "by Hypothesis plus an enumerated list of boundary cut-offs; oracle = "
         "magnitude of B/A evaluated independently (fsum) from the returned "
         "coefficient lists at DC, Nyquist, cut-off, resonance and on grids, the "
         "second-order stability triangle, an exact Fraction model of the comb "
         "recursions, constant designs for Stream-valued parameters; "
         "non-trivial = parameter not at a forced boundary value (comb: signal "
-        "longer than the delay); distinct = distinct case hash")
+        "longer than the delay, or a given state whose order matters); distinct = distinct case hash")
 ASSUMPTIONS = [
   "magnitudes are evaluated from filt.numerator / filt.denominator with an independent fsum evaluation "
   "(and cross-checked against filt.freq_response at the asserted points)",
@@ -54,6 +57,14 @@ ASSUMPTIONS = [
   "Stream-valued parameters are exercised for the thub-based designs only (lowpass, highpass, resonator, "
   "comb, gammatone.klapuri); gammatone.sampled / slaney take numbers",
   "comb coefficients are ints / floats (printed exactly into the generated filter source); signals are Q",
+  "comb initial state: y[-k] is the k-th item of the memory argument (the documented convention of every "
+  "LinearFilter call: 'the first needed elements ... will be used directly as the memory'), given as list, "
+  "tuple, iterator, generator, Stream or callable(size); memories shorter than the delay are not generated "
+  "(where the fill-up zeros go is undocumented); feedforward combs are always started from rest",
+  "design parameters are numbers or Streams (documented: 'a value (or a Stream of values)'), plus plain "
+  "lists / tuples for gammatone.klapuri (the library's own tests); other non-Stream iterables (iter(list), "
+  "itertools objects) are not generated: the unchanged library rejects them in most sibling designs "
+  "(pole_exp, z_exp, three resonators, comb.tau raise TypeError), so they are outside the quantifier",
 ]
 
 PI = math.pi
@@ -277,23 +288,53 @@ _q = st.one_of(st.integers(-9, 9).map(Q),
                st.tuples(st.integers(-20, 20), st.integers(1, 7)).map(lambda p: Q(*p)))
 
 
+# delays: the short ones as before, plus long delay lines (a comb is a delay line: echoes of tens to
+# hundreds of samples are its ordinary use); 39..42 and the powers of two are sizes where an
+# implementation may switch its way of keeping the past outputs
+_delay = st.sampled_from(["short"] * 6 + ["mid", "long", "long", "switch"]).flatmap(lambda r: {
+  "short": st.integers(1, 12), "mid": st.integers(13, 40), "long": st.integers(41, 130),
+  "switch": st.sampled_from([16, 31, 32, 33, 39, 40, 41, 42, 63, 64, 65, 100, 127, 128, 129])}[r])
+MEMKINDS = ["list", "list", "tuple", "iter", "generator", "stream", "callable"]
+
+
+def tiled(pat, slope, n):
+  """n values pat[k % len(pat)] + k*slope: long signals / states from a few drawn numbers."""
+  return [Q(pat[k % len(pat)] + k * slope) for k in range(n)]
+
+
 @st.composite
 def strat_comb_(draw):
   kind = draw(st.sampled_from(["fb", "fb", "tau", "ff"]))
   name = draw(st.sampled_from(COMB[kind]))
-  delay = draw(st.integers(1, 12))
+  delay = draw(_delay)
   if kind == "tau":
     par = draw(st.one_of(st.none(), _tau))
   else:
     par = draw(st.one_of(st.none(), _alpha))
-  n = draw(st.integers(1, 3 * delay + 4))
+  n = draw(st.integers(1, 3 * delay + 4 if delay <= 12 else 2 * delay + 30))
   sig = draw(st.sampled_from(["impulse", "signal", "signal", "signal"]))
   if sig == "impulse":
     x = [Q(1)] + [Q(0)] * (n - 1)
-  else:
+  elif delay <= 12:
     x = draw(st.lists(_q, min_size=n, max_size=n))
-  return {"kind": kind, "name": name, "delay": delay, "par": par, "x": x,
+  else:
+    x = tiled(draw(st.lists(_q, min_size=1, max_size=9)), draw(st.sampled_from([Q(0), Q(0), Q(1, 8), Q(-1, 3)])), n)
+  case = {"kind": kind, "name": name, "delay": delay, "par": par, "x": x,
           "kw": draw(st.booleans()), "zero": draw(st.sampled_from(["default", "q0", "int0"]))}
+  # the outputs before the first sample: zeros when nothing is given (as before), or the caller's
+  # memory (y[-1] first, the documented convention of every LinearFilter call); exactly `delay`
+  # values most of the time, else more (the first ones count). Fewer values than the delay are not
+  # generated: where the library puts the fill-up zeros is not documented (and not C13's subject)
+  if kind != "ff" and draw(st.sampled_from([False, True, True])):
+    size = draw(st.sampled_from([delay, delay, delay, delay + 3, 2 * delay + 1]))
+    if draw(st.booleans()) and size <= 12:
+      vals = draw(st.lists(_q, min_size=size, max_size=size))
+    else:
+      vals = tiled(draw(st.lists(_q, min_size=1, max_size=7)), draw(st.sampled_from([Q(1, 4), Q(-2, 3), Q(1), Q(0)])), size)
+    case["mem"] = {"vals": vals, "kind": draw(st.sampled_from(MEMKINDS))}
+  else:
+    case["mem"] = None
+  return case
 
 
 def strat_comb(tier):
@@ -307,6 +348,22 @@ def design_comb(kind, name, delay, par, kw):
   if kw:
     return fn(delay, **{"tau" if kind == "tau" else "alpha": par})
   return fn(delay, par)
+
+
+def given_memory(kind, vals):
+  if kind == "list":
+    return list(vals)
+  if kind == "tuple":
+    return tuple(vals)
+  if kind == "iter":
+    return iter(list(vals))
+  if kind == "generator":
+    return (v for v in list(vals))
+  if kind == "stream":
+    return Stream(list(vals))
+  if kind == "callable":      # called with the memory size, returns an iterable
+    return lambda size: list(vals)
+  raise AssertionError(kind)
 
 
 def run_comb(case):
@@ -334,24 +391,53 @@ def run_comb(case):
   else:
     alpha = 1 if par is None else par
   al = Fraction(alpha)
-  kw = {"default": {}, "q0": {"zero": Q(0)}, "int0": {"zero": 0}}[case["zero"]]
+  kw = dict({"default": {}, "q0": {"zero": Q(0)}, "int0": {"zero": 0}}[case["zero"]])
+  mem = case.get("mem")
+  before = {}          # before[k] is y[-k]; what is not given is zero
+  if mem is not None:
+    vals = list(mem["vals"])
+    kw["memory"] = given_memory(mem["kind"], vals)
+    before = {k + 1: Fraction(v) for k, v in enumerate(vals[:D])}
+    what += " called with memory=%s%r" % (mem["kind"], vals)
   y = list(filt(list(x), **kw))
   if len(y) != len(x):
     raise Violation("%s: %d samples in, %d out" % (what, len(x), len(y)))
   exp = []
   for n, xn in enumerate(x):
-    past = (exp[n - D] if kind != "ff" else Fraction(x[n - D])) if n >= D else Fraction(0)
+    if n >= D:
+      past = exp[n - D] if kind != "ff" else Fraction(x[n - D])
+    else:
+      past = before.get(D - n, Fraction(0)) if kind != "ff" else Fraction(0)
     exp.append(Fraction(xn) + al * past)
   for n, (g, e) in enumerate(zip(y, exp)):
     if not (isinstance(g, (Fraction, int, float)) and g == e):
       law = "x[n]+alpha*x[n-%d]" % D if kind == "ff" else "x[n]+alpha*y[n-%d]" % D
       raise Violation("%s on %r: y[%d] = %r, %s with alpha=%r gives %s" % (what, x, n, g, law, alpha, e))
-  labels.append("delay=1" if D == 1 else "delay 2..4" if D <= 4 else "delay 5..12")
+  labels.append("delay=1" if D == 1 else "delay 2..4" if D <= 4 else "delay 5..12" if D <= 12 else
+                "delay 13..40" if D <= 40 else "delay>40")
   if par is None:
     labels.append("default parameter")
   if len(x) > 2 * D:
     labels.append("more than two periods")
-  return {"nontrivial": len(x) > D and al != 0 and any(v != 0 for v in x[:len(x) - D]), "labels": labels}
+  if len(x) > D:
+    labels.append("more than one period")
+  state = False
+  if mem is None:
+    labels.append("memory:zeroed (default)")
+  else:
+    labels.append("memory:" + mem["kind"])
+    given = [before.get(k, Fraction(0)) for k in range(1, D + 1)]
+    labels.append("memory size %s delay" % ("==" if len(mem["vals"]) == D else ">"))
+    if given != given[::-1]:
+      # the order of the given state matters (and it is not all one value)
+      state = al != 0
+      labels.append("given state, order matters")
+      if D > 12:
+        labels.append("given state on a long delay line")
+      if D > 40:
+        labels.append("given state, delay>40")
+  return {"nontrivial": al != 0 and (state or (len(x) > D and any(v != 0 for v in x[:len(x) - D]))),
+          "labels": labels}
 
 
 # ---------------------------------------------------------------- gammatone
@@ -573,8 +659,11 @@ CLAUSES = [
                      [("gain at resonance checked", .5), ("complex poles", .5)]),
          doc="z^-2 coefficient e^-bw, unit gain at the resonant frequency, nothing above it on a grid"),
   Clause("comb", strat_comb, run_comb, quick=1400, thorough=16000,
-         floors={"comb.fb": .15, "comb.tau": .08, "comb.ff": .08, "more than two periods": .1},
-         doc="exact Q response == x[n]+alpha*y[n-D] (fb, tau with alpha=e^(-D/tau)) / x[n]+alpha*x[n-D] (ff)"),
+         floors={"comb.fb": .15, "comb.tau": .08, "comb.ff": .08, "more than two periods": .1,
+                 "delay 13..40": .04, "delay>40": .08, "given state, order matters": .1,
+                 "given state, delay>40": .03},
+         doc="exact Q response == x[n]+alpha*y[n-D] (fb, tau with alpha=e^(-D/tau)) / x[n]+alpha*x[n-D] (ff), "
+             "D up to 130, from rest and (fb, tau) from a given memory"),
   Clause("gammatone", strat_gammatone, run_gammatone, quick=1000, thorough=10000,
          floors={"gammatone.sampled": .15, "gammatone.slaney": .08, "gammatone.klapuri": .08},
          doc="CascadeFilter of stable second-order sections, unit gain at the centre frequency"),
